@@ -36,7 +36,9 @@ Import ListNotations.
 Open Scope N_scope.
 
 (* ---------------------------------------------------------------- outcomes *)
-(* where an uncaught Python TypeError comes from (one constructor per modelled defect) *)
+(* where an uncaught Python TypeError came from (one constructor per modelled defect; all four
+   sites were repaired in /repo -- 24a005e, 32d0281, 8cca284 -- and no model function produces
+   them any more; the constructors stay so that the outcome type is unchanged) *)
 Inductive tsite :=
 | TMissingArg        (* cls( **params): missing required positional argument *)
 | TUnexpectedKw      (* cls( **params): unexpected keyword argument (init=False wildcard / attributes field) *)
@@ -389,14 +391,14 @@ Section Parser.
     let vars := get_all_vars m in
     let nodef := match assocN (m_clazz m) (cf_nodefault cfg) with Some l => l | None => [] end in
     if existsb (fun kv => negb (existsb (fun v => v_init v && str_eqb (v_name v) (fst kv)) vars)) p
-    then RErr (PyTypeError TUnexpectedKw)
+    then RErr ParserError        (* unexpected keyword: TypeError wrapped by ElementNode.bind since /repo 24a005e *)
     else
       do fields <- map_res (fun v =>
           match (if v_init v then assoc (v_name v) p else None) with
           | Some x => ROk (v_name v, x)
           | None =>
               if v_init v && existsb (str_eqb (v_name v)) nodef
-              then RErr (PyTypeError TMissingArg)
+              then RErr ParserError  (* missing required argument: TypeError wrapped since /repo 24a005e *)
               else ROk (v_name v, default_call (v_default v))
           end) vars;
       ROk (VObj (m_clazz m) fields).
@@ -580,15 +582,16 @@ Section Parser.
          | None => ROk (pset (v_name var) (PV v) p)
          end.
 
-  (* XmlMeta.find_children on the qname of an `objects` entry; a tail entry has qname
-     None, and XmlVar.match_namespace(None) -> target_uri(None) -> None[0] -> TypeError *)
+  (* XmlMeta.find_children on the qname of an `objects` entry; a tail entry has qname None:
+     bind_object returns False for it (before /repo 8cca284: XmlVar.match_namespace(None) ->
+     target_uri(None) -> None[0] -> TypeError when the class has a wildcard) *)
   Definition find_children_opt (m : xmeta) (q : option qname) : res (list xvar) :=
     match q with
     | Some qn => ROk (find_children m qn)
     | None =>
         if existsb (fun ch => match v_wildcards ch with [] => false | _ => true end) (m_choices m)
            || match m_wildcards m with [] => false | _ => true end
-        then RErr (PyTypeError TNoneQname)
+        then ROk []                  (* bind_object answers False for a tail entry since /repo 8cca284 *)
         else ROk []
     end.
 
@@ -715,8 +718,8 @@ Section Parser.
     let objs1 := objs ++ [(Some q, obj)] in
     ROk (if m_mixed_content m then append_tail objs1 tail else objs1, ws).
 
-  (* StandardNode.bind; datatype.wrapper(obj) is bytes(obj) for XmlHexBinary / XmlBase64Binary:
-     a str or None argument raises TypeError *)
+  (* StandardNode.bind; datatype.wrapper (XmlHexBinary / XmlBase64Binary) is applied to bytes
+     only: the exported value of a wrapped bytes object is the same PBytes *)
   Definition standard_bind (m : xmeta) (var : xvar) (ty : ptype) (fmt : option str) (wrapper : option ptype)
              (ns : nsmap) (nillable derived : bool) (q : qname) (text : option str) (objs : objects)
     : res (objects * list warning) :=
@@ -724,11 +727,7 @@ Section Parser.
     let '(obj, ws) := r in
     let obj := match obj with VNone => if nillable then VNone else VP (PStr []) | _ => obj end in
     do obj <- match wrapper with
-              | Some _ => match obj with
-                          | VP (PBytes _) => ROk obj
-                          | VP (PStr _) | VNone => RErr (PyTypeError TBytesWrapper)
-                          | _ => RErr ModelGap
-                          end
+              | Some _ => ROk obj   (* the wrapper class is applied to bytes only since /repo 32d0281 *)
               | None => ROk obj
               end;
     let obj := if derived then VDerived q obj None else obj in
